@@ -17,6 +17,7 @@ import Proofs.GoTieKeygen
 import Proofs.GoTieKeygenMain
 import Proofs.GoTieKeygenModel
 import Proofs.GoTieCliModel
+import Proofs.GoTieCliSegments
 namespace AgeModel
 namespace Tie.C15
 open Extracted
@@ -209,6 +210,30 @@ theorem keygen_generate_refines {ι θ : Type} (eW : Go.Err) (text : Bytes) (k :
       | (p', true) => .ok p'
       | (_, false) => .error (.panic 1001) :=
   GoTie.keygen_generate_refines eW text k fd isTerm rc ts now e1 n1 stderr out p
+
+/-! ### "the copy loops are modelled as one write", proved — and `encrypt`
+
+`io.Copy`, the STREAM writer and the armor writer issue many non-empty writes and stop at the first
+error; `Cli.execute` hands the whole ciphertext to the destination at once. For EVERY destination of
+the model (standard output, the buffer used when it is a terminal, the lazily opened file) writing
+segment by segment leaves the process observably where the single write leaves it, with the same
+success (`writeSegs_flatten`). With the four steps of the translated `encrypt` read as segment
+writers, it returns exactly when `Cli.execute` reaches `finish`, observably in the model's final
+state, and ends the process exactly when the model exits 1 (`cli_encrypt_refines`). -/
+
+theorem writeSegs_flatten (dest : Cli.Dest) (segs : List Bytes) (p : Cli.Proc) (h : GoTie.SegInv p) :
+    GoTie.ObsEq (GoTie.writeSegs dest p segs).1 (p.writeNE dest segs.flatten).1 ∧
+      (GoTie.writeSegs dest p segs).2 = (p.writeNE dest segs.flatten).2 :=
+  GoTie.writeSegs_flatten dest segs p h
+
+theorem cli_encrypt_refines {ρ : Type} (eW : Go.Err) (dest : Cli.Dest) (s1 s2 s3 s4 : List Bytes) (recs : List ρ) (inp : Bytes)
+    (armor : Bool) (w : Cli.World) :
+    let ct := (s1 ++ s2 ++ s3 ++ (if armor then s4 else [])).flatten
+    match main_encrypt (0 : Nat) GoTie.mNW (GoTie.mEnc eW dest s1) (GoTie.mCp eW dest s2) (GoTie.mCl eW dest s3 s4) recs inp 0 armor
+        ({ w := w } : Cli.Proc) with
+    | .ok p' => GoTie.ResObsEq (Cli.execute dest (.enc ct) w) (p'.finish dest)
+    | .error _ => (Cli.execute dest (.enc ct) w).exit = 1 :=
+  GoTie.cli_encrypt_refines eW dest s1 s2 s3 s4 recs inp armor w
 
 end Tie.C15
 end AgeModel
